@@ -211,6 +211,12 @@ var pkgErrRe = regexp.MustCompile(`(?m)^(?:# )?(?:verifscratch/|mod/|\./mod/)?(p
 
 // buildBatch builds one binary importing every ok package; packages that do not compile
 // are marked Broken and excluded (their diagnostics kept). Returns the binary path.
+// buildRace / batchEnv: the conc facet compiles the batch binary with the race detector.
+var (
+	buildRace bool
+	batchEnv  []string
+)
+
 func buildBatch(work string, results []GenResult) (string, error) {
 	modDir := work
 	gomod := "module verifscratch\n\ngo 1.20\n\nrequire verif/rt v0.0.0\n\nreplace verif/rt => /verif/harness/rt\n"
@@ -239,7 +245,11 @@ func buildBatch(work string, results []GenResult) (string, error) {
 		b.WriteString(")\n\nfunc main() { rt.Main() }\n")
 		os.MkdirAll(filepath.Join(modDir, "cmd"), 0o755)
 		os.WriteFile(filepath.Join(modDir, "cmd", "main.go"), b.Bytes(), 0o644)
-		cmd := exec.Command("go", "build", "-o", bin, "./cmd")
+		buildArgs := []string{"build", "-o", bin, "./cmd"}
+		if buildRace {
+			buildArgs = []string{"build", "-race", "-o", bin, "./cmd"}
+		}
+		cmd := exec.Command("go", buildArgs...)
 		cmd.Dir = modDir
 		cmd.Env = append(os.Environ(), "GOFLAGS=-mod=mod", "GOPROXY=off", "GOSUMDB=off", "GOTOOLCHAIN=local")
 		out, err := cmd.CombinedOutput()
@@ -284,6 +294,7 @@ func runBatch(bin string, cases []rt.Case) (map[string]string, error) {
 	cmd := exec.Command(bin)
 	cmd.Stdin = &in
 	cmd.Env = append(os.Environ(), "GOMEMLIMIT=4GiB")
+	cmd.Env = append(cmd.Env, batchEnv...)
 	var stderr bytes.Buffer
 	cmd.Stderr = &stderr
 	outp, err := cmd.StdoutPipe()
